@@ -176,6 +176,20 @@ class Agg:
         return a
 
 
+def selftest_indices(n_cases, n):
+    """Case indices whose event-log digests are recomputed in a fresh interpreter: the first n/2
+    cases plus n/2 spread evenly over the whole batch (so every mode of a check is represented)."""
+    n = min(n, n_cases)
+    if n <= 0:
+        return frozenset()
+    head = n // 2
+    rest = n - head
+    s = set(range(head))
+    for j in range(rest):
+        s.add(head + (j * (n_cases - head)) // rest)
+    return frozenset(s)
+
+
 def case_seed(base_seed, check_id, idx):
     return derive_seed(base_seed, check_id, idx)
 
@@ -187,7 +201,7 @@ def run_case(check, base_seed, idx, agg, selftest_n, want_sample, prefix=None):
     ch = Choices(prefix=prefix or (), seed=seed)
     out = guarded_run(check, ch, render=want_sample)
     rec = ch.rec
-    keep = idx < selftest_n
+    keep = idx in selftest_n
     chain = hashlib.blake2b(digest_size=16)
     if keep:
         chain.update(log_digest(out.log).encode())
@@ -494,14 +508,15 @@ def load_known_findings(prop):
 # determinism self-test
 # --------------------------------------------------------------------------------------
 
-def selftest_fresh(check, base_seed, n, expect):
+def selftest_fresh(check, base_seed, n, expect, n_cases):
     """Recompute the first n case digests in a fresh interpreter, other PYTHONHASHSEED, one
     process; compare with what the 16-way batch produced."""
     env = dict(os.environ)
     env["PYTHONHASHSEED"] = "987"
     env["PYTHONDONTWRITEBYTECODE"] = "1"
     env["VERIF_SEED"] = str(base_seed)
-    p = subprocess.run([sys.executable, os.path.join(VERIF_DIR, "sim", "main.py"), check.ID, "--digests", str(n)],
+    p = subprocess.run([sys.executable, os.path.join(VERIF_DIR, "sim", "main.py"), check.ID, "--digests", str(n),
+                        "--of", str(n_cases)],
                        capture_output=True, text=True, env=env, timeout=1800)
     got = None
     for line in p.stdout.splitlines():
@@ -520,20 +535,22 @@ def jobs_note():
     return f"{os.environ.get('VERIF_JOBS', '16')}-worker forked batch"
 
 
-def digests_main(check, base_seed, n, systematic):
-    """--digests N: executed in the fresh interpreter."""
+def digests_main(check, base_seed, n, systematic, n_cases):
+    """--digests N --of CASES: executed in the fresh interpreter."""
     agg = Agg()
     episode = check.TIERS["quick"]["episode"]
-    idxs = list(range(n))
+    st = selftest_indices(n_cases, n)
+    idxs = sorted(st)
+    n = len(idxs)
     for s in range(0, n, episode):
-        a = run_episode(check, base_seed, idxs[s:s + episode], n, set(), systematic, wall_s=1700)
+        a = run_episode(check, base_seed, idxs[s:s + episode], st, set(), systematic, wall_s=1700)
         agg.merge(a)
     if agg.errors:
         print("ERRORS", agg.errors, file=sys.stderr)
     # second pass in the same interpreter: same digests again (run twice)
     agg2 = Agg()
     for s in range(0, n, episode):
-        a = run_episode(check, base_seed, idxs[s:s + episode], n, set(), systematic, wall_s=1700)
+        a = run_episode(check, base_seed, idxs[s:s + episode], st, set(), systematic, wall_s=1700)
         agg2.merge(a)
     if agg.run_digests != agg2.run_digests:
         print("DIGESTS-TWICE-MISMATCH", file=sys.stderr)
@@ -621,7 +638,8 @@ def main_check(check, argv):
 
     if "--digests" in argv:
         n = int(argv[argv.index("--digests") + 1])
-        return digests_main(check, base_seed, n, systematic)
+        of = int(argv[argv.index("--of") + 1]) if "--of" in argv else n
+        return digests_main(check, base_seed, n, systematic, of)
 
     tier = "quick"
     for a in argv:
@@ -634,7 +652,8 @@ def main_check(check, argv):
           f"repo={os.environ.get('VERIF_REPO', '/repo')}", flush=True)
 
     selftest_n = min(cfg.get("selftest", 64), n_cases)
-    agg, truncated = run_batch(check, base_seed, n_cases, cfg["episode"], jobs, selftest_n,
+    selftest_set = selftest_indices(n_cases, selftest_n)
+    agg, truncated = run_batch(check, base_seed, n_cases, cfg["episode"], jobs, selftest_set,
                                n_samples=4, wall_cap_s=cfg.get("wall_cap_s", 3600), systematic=systematic)
     batch_wall = time.monotonic() - t0
 
@@ -648,7 +667,7 @@ def main_check(check, argv):
 
     # ---- determinism self-test ----
     if rc == 0 and selftest_n and os.environ.get("VERIF_SKIP_SELFTEST") != "1":
-        ok, msg = selftest_fresh(check, base_seed, selftest_n, agg.run_digests)
+        ok, msg = selftest_fresh(check, base_seed, selftest_n, agg.run_digests, n_cases)
         extra["determinism_selftest"] = {"ok": ok, "detail": msg, "cases": selftest_n}
         if not ok:
             print("HARNESS-ERROR determinism self-test failed: " + msg, file=sys.stderr)
